@@ -40,6 +40,7 @@ CONSTANTS Configs,      \* sequence of enumeration configurations (records, see 
 \*   KindsMid     operand kinds of Applies before the last statement ({} = a program ends at its first Apply)
 \*   AllowT, AllowMM
 \*   AllowOver    generate statements that attach a pending operand to an object that already has one
+\*   Variants     offer two different sparse / AD operands of equal shape and entry count (reuse of one slicer object)
 VARIABLES cfi, prog, rs, left     \* left = statements still allowed
 svars == <<cfi, prog, rs, left>>
 Cf == Configs[cfi]
@@ -51,11 +52,16 @@ SpRow(i) == IF i = 3 THEN <<0, 0>> ELSE IF i % 2 = 1 THEN <<i, 0>> ELSE <<0, i>>
 YSp(n, fmt) == Val("sp", [i \in 1..n |-> SpRow(i)], <<>>, fmt)
 YAd(n) == Val("ad", [i \in 1..n |-> <<i>>], [i \in 1..n |-> [j \in 1..3 |-> IF (i + j) % 2 = 0 THEN i + j ELSE 0]], "")
 YSc(fmt) == Val("sc", <<<<3>>>>, <<>>, fmt)
+\* second sparse / AD operand of the same shape and the same number of stored entries but another distribution of
+\* the entries over the rows (configurations with Variants = TRUE apply one slicer object to both: anything a slicer
+\* remembers from an earlier operand must not leak into the next application)
+YSp2(n, fmt) == Val("sp", [i \in 1..n |-> IF n >= 2 /\ i = 1 THEN <<1, 2>> ELSE IF n >= 2 /\ i = 2 THEN <<0, 0>> ELSE SpRow(i)], <<>>, fmt)
+YAd2(n) == LET a == YAd(n) IN Val("ad", a.val, [i \in 1..n |-> IF n >= 2 /\ i <= 2 THEN a.jac[3 - i] ELSE a.jac[i]], "")
 Operands(kind, n) ==
   CASE kind = "vec" -> {YVec(n)}
     [] kind = "mat" -> {YMat(n)}
-    [] kind = "sp"  -> {YSp(n, f) : f \in Cf.SparseFmts}
-    [] kind = "ad"  -> {YAd(n)}
+    [] kind = "sp"  -> {YSp(n, f) : f \in Cf.SparseFmts} \cup (IF Cf.Variants THEN {YSp2(n, f) : f \in Cf.SparseFmts} ELSE {})
+    [] kind = "ad"  -> {YAd(n)} \cup (IF Cf.Variants THEN {YAd2(n)} ELSE {})
     [] kind = "sc"  -> {YSc(f) : f \in Cf.ScalarFmts}
 XScalar(op, fmt) == Val("sc", <<<<IF op = "/" THEN 12 ELSE 2>>>>, <<>>, fmt)
 XSparse(m, fmt) == Val("sp", [r \in 1..2 |-> [c \in 1..m |-> IF (r + c) % 2 = 0 THEN r + c ELSE 0]], <<>>, fmt)
